@@ -12,6 +12,7 @@ import (
 	"os"
 	"path/filepath"
 	"sync"
+	"time"
 
 	"verif/reg"
 )
@@ -29,68 +30,20 @@ func racePass(c *reg.Ctx) *reg.Result {
 				if !c.Mine(int64(it)) {
 					continue
 				}
-				var s *bSession
-				root := ""
-				path := "/f"
-				if server == "os" {
-					root = scratchDir()
-					os.WriteFile(filepath.Join(root, "f"), []byte("abcdefghijklmnopqrstuvwxyz"), 0o644)
-					opts := []ServerOption{WithServerWorkingDirectory(root)}
-					if alloc {
-						opts = append(opts, WithAllocator())
+				// the pass is free-running: there is no deadlock oracle here, so an iteration that does not
+				// finish (possible on broken code) ends the pass as inconclusive instead of hanging the check
+				done := make(chan string, 1)
+				go func() { done <- raceIteration(server, alloc) }()
+				select {
+				case msg := <-done:
+					if msg != "" {
+						res.Violate(c.Property, "race-pass-setup", msg, nil, nil)
+						return res
 					}
-					s = bServeOS(opts...)
-					path = "f"
-				} else {
-					h := InMemHandler()
-					var opts []RequestServerOption
-					if alloc {
-						opts = append(opts, WithRSAllocator())
-					}
-					s = bServeRS(h, opts...)
-				}
-				cl, err := s.Client(MaxPacketUnchecked(3), MaxConcurrentRequestsPerFile(3), UseConcurrentWrites(true))
-				if err != nil {
-					res.Violate(c.Property, "race-pass-setup", "NewClientPipe: "+err.Error(), nil, nil)
+				case <-time.After(60 * time.Second):
+					res.Exhaustive = false
+					res.Notes["hung_iteration"] = fmt.Sprintf("%s alloc=%v #%d did not finish within 60 s (inconclusive; the scheduled parts decide hangs)", server, alloc, it)
 					return res
-				}
-				f, err := cl.OpenFile(path, os.O_RDWR|os.O_CREATE)
-				if err != nil {
-					res.Violate(c.Property, "race-pass-setup", "OpenFile: "+err.Error(), nil, nil)
-					return res
-				}
-				if server == "rs" {
-					f.WriteAt([]byte("abcdefghijklmnopqrstuvwxyz"), 0)
-				}
-				var wg sync.WaitGroup
-				for g := 0; g < 4; g++ {
-					g := g
-					wg.Add(1)
-					go func() {
-						defer wg.Done()
-						buf := make([]byte, 10)
-						switch g {
-						case 0:
-							f.ReadAt(buf, 2) // multi-chunk concurrent read
-							cl.Stat(path)
-						case 1:
-							f.WriteAt([]byte("0123456789"), 12) // multi-chunk concurrent write
-							cl.Lstat(path)
-						case 2:
-							f.Stat()
-							f.ReadAt(buf[:3], 0)
-							cl.ReadDir(".")
-						case 3:
-							cl.RealPath("x/../y")
-							f.WriteAt([]byte("zz"), 24)
-						}
-					}()
-				}
-				wg.Wait()
-				f.Close()
-				s.Stop(cl)
-				if root != "" {
-					os.RemoveAll(root)
 				}
 				res.Case(fmt.Sprintf("%s alloc=%v #%d", server, alloc, it))
 			}
@@ -99,6 +52,71 @@ func racePass(c *reg.Ctx) *reg.Result {
 	res.Sample("4 goroutines share one Client and one File (multi-chunk ReadAt/WriteAt, Stat, ReadDir, RealPath) against both servers, allocator off/on, under -race")
 	res.Bound = "sampling pass under the race detector (supporting evidence only)"
 	return res
+}
+
+func raceIteration(server string, alloc bool) string {
+	var s *bSession
+	root := ""
+	path := "/f"
+	if server == "os" {
+		root = scratchDir()
+		os.WriteFile(filepath.Join(root, "f"), []byte("abcdefghijklmnopqrstuvwxyz"), 0o644)
+		opts := []ServerOption{WithServerWorkingDirectory(root)}
+		if alloc {
+			opts = append(opts, WithAllocator())
+		}
+		s = bServeOS(opts...)
+		path = "f"
+	} else {
+		h := InMemHandler()
+		var opts []RequestServerOption
+		if alloc {
+			opts = append(opts, WithRSAllocator())
+		}
+		s = bServeRS(h, opts...)
+	}
+	cl, err := s.Client(MaxPacketUnchecked(3), MaxConcurrentRequestsPerFile(3), UseConcurrentWrites(true))
+	if err != nil {
+		return "NewClientPipe: " + err.Error()
+	}
+	f, err := cl.OpenFile(path, os.O_RDWR|os.O_CREATE)
+	if err != nil {
+		return "OpenFile: " + err.Error()
+	}
+	if server == "rs" {
+		f.WriteAt([]byte("abcdefghijklmnopqrstuvwxyz"), 0)
+	}
+	var wg sync.WaitGroup
+	for g := 0; g < 4; g++ {
+		g := g
+		wg.Add(1)
+		go func() {
+			defer wg.Done()
+			buf := make([]byte, 10)
+			switch g {
+			case 0:
+				f.ReadAt(buf, 2) // multi-chunk concurrent read
+				cl.Stat(path)
+			case 1:
+				f.WriteAt([]byte("0123456789"), 12) // multi-chunk concurrent write
+				cl.Lstat(path)
+			case 2:
+				f.Stat()
+				f.ReadAt(buf[:3], 0)
+				cl.ReadDir(".")
+			case 3:
+				cl.RealPath("x/../y")
+				f.WriteAt([]byte("zz"), 24)
+			}
+		}()
+	}
+	wg.Wait()
+	f.Close()
+	s.Stop(cl)
+	if root != "" {
+		os.RemoveAll(root)
+	}
+	return ""
 }
 
 func init() {
